@@ -1,5 +1,6 @@
 import Driver.Common
 import Rpki.Model.Chain
+import Rpki.Model.AsDer
 namespace Driver.C03
 open Driver Rpki.Chain
 
@@ -58,6 +59,30 @@ def famTag (op : String) : Blk → String := if op.startsWith "as" then asTag el
 
 def handle (toks : List String) (impl : String) : Verdict :=
   match toks with
+  | ["as-der", h] =>
+    match (parseHex h).map (·.map UInt8.toNat) with
+    | none => badOp "hex"
+    | some b =>
+      let m := match Rpki.AsDer.decodeExt b with
+        | none => "err"
+        | some .inherit => "inherit"
+        | some (.blocks c) => s!"blocks {showChain asTag c}"
+        | some .missing => "odd"
+      { model := some m,
+        oracle := if impl.startsWith "blocks " then checkSet M32 asTag (impl.drop 7).toString []
+                    (fun x => (parseTagged (impl.drop 7).toString).any (fun tb => memb (tb.map (·.1)) x))
+                  else none }
+  | ["as-enc", what] =>
+    let claim : Option Claim := if what = "I" then some .inherit else (parseBlocks what).map .blocks
+    match claim with
+    | none => badOp "blocks"
+    | some cl =>
+      let enc := Rpki.AsDer.encodeExt cl
+      { model := some (toHex (enc.map UInt8.ofNat)),
+        oracle := match (parseHex impl).map (·.map UInt8.toNat) with
+          | none => some "unreadable"
+          | some der => if Rpki.AsDer.decodeExt der = some cl then none
+                        else some "the encoded AS resources extension does not decode back to the same set" }
   | ["as-parse", _] =>
     { oracle := if impl.startsWith "ok-inverted" then some "text with lower bound above upper bound accepted"
                 else if impl.startsWith "ok " then checkSet M32 asTag (impl.drop 3).toString [] (fun x => (parseTagged (impl.drop 3).toString).any (fun tb => memb (tb.map (·.1)) x))
